@@ -32,7 +32,7 @@ VARIANTS = {
 }
 
 
-def to_scenarios(e, idx, rnd):
+def to_scenarios(e, idx, rnd):   # idx: string
     """TLC export -> driver scenarios.  An abstract fault class stands for several concrete alterations: a bad manifest and an
     altered diff of an identity-update block are run in EVERY variant, the others in a variant chosen by the seed."""
     choices = []   # (kind, peer, key, variants)
@@ -63,7 +63,7 @@ def to_scenarios(e, idx, rnd):
                 plans[p][key] = v
             else:
                 mans[p] = v
-        res.append({"id": "m%d.%d" % (idx, j), "class": e["class"], "shape": e["shape"], "plans": plans, "mans": mans, "steps": steps})
+        res.append({"id": "m%s.%d" % (idx, j), "class": e["class"], "shape": e["shape"], "plans": plans, "mans": mans, "steps": steps})
     return res
 
 
@@ -151,8 +151,19 @@ def chunks_of(rows, max_lines=6000):
     return res
 
 
+def drop_unreliable(ctx, rows):
+    """Scenarios in which a real-time time-out may have fired (starved machine) say nothing: they are left out and counted."""
+    bad = {x["sid"] for x in rows if x.get("ev") == "Unreliable"}
+    if bad:
+        ctx.notes.append("%d scenario(s) left out because the machine was too slow for the sync code's real-time time-outs: %s" % (len(bad), sorted(bad)[:10]))
+    return [x for x in rows if x.get("sid") not in bad], len(bad)
+
+
 def validate(ctx, trace, label):
-    rows = vlib.read_ndjson(trace)
+    rows, dropped = drop_unreliable(ctx, vlib.read_ndjson(trace))
+    if dropped:
+        trace = ctx.path("filtered_%s.ndjson" % label)
+        vlib.write_ndjson(trace, rows)
     all_ok, drift, seen = True, 0, {}
     offset = 0
     for ci, chunk in enumerate(chunks_of(rows)):
@@ -172,14 +183,15 @@ def validate(ctx, trace, label):
                 key = "%s:FastSync%s:%s" % (PREFIX.get(clause, PID), clause, signature(rows, start, end, line, clause))
                 seen.setdefault(key, []).append((line, clause, start, end))
         offset += len(chunk)
-    for key in sorted(seen)[:12]:
+    order = sorted(seen, key=lambda k: (k.count("+") + (0 if "honest-peers-only" in k else 1), k))
+    for key in order[:8]:
         line, clause, start, end = seen[key][0]
         ex = ctx.path("replay_%s_%d.ndjson" % (clause, line))
         vlib.write_ndjson(ex, rows[start:end])
         report(ctx, key, describe(rows, start, end, line, clause) + " (%d scenario(s) with this signature; %d signatures in this run)" % (len(seen[key]), len(seen)),
                ex, {"scenario": rows[start].get("scenario"), "class": rows[start].get("class"), "line": line - start})
-    if len(seen) > 12:
-        ctx.notes.append("%s: %d further violation signatures not listed: %s" % (label, len(seen) - 12, sorted(seen)[12:40]))
+    if len(seen) > 8:
+        ctx.notes.append("%s: %d further violation signatures not listed: %s" % (label, len(seen) - 8, order[8:40]))
     return all_ok, {"drift": drift}, rows
 
 
@@ -226,6 +238,25 @@ def stats_of(rows):
     return st
 
 
+class SyncCrashed(Exception):
+    """The repository's sync code panicked in one of its own goroutines and took the process down (a real node dies the same way)."""
+
+
+def driver_failed(ctx, p, what):
+    out = p.stdout or ""
+    i = out.find("panic: ")
+    if i >= 0 and not out[i:].startswith("panic: driver:") and "verifh/" not in out[i:i + 2500].split("\ncreated by")[0].replace("verifh/internal/vclock", ""):
+        frames = out[i:i + 2500]
+        if "idena-go/protocol" in frames or "idena-go/core/state" in frames or "idena-go/blockchain" in frames:
+            msg = out[i:].splitlines()[0][:200]
+            where = [l.strip() for l in frames.splitlines() if "idena-go/" in l and "(" in l][:4]
+            report(ctx, "C11:FastSyncNoCrash:panic-in-sync-goroutine",
+                   "the sync code panicked in its own goroutine while %s and killed the process: %s; frames: %s" % (what, msg, "; ".join(where)[:600]),
+                   None, {"output": out[i:i + 3000]})
+            raise SyncCrashed()
+    raise vlib.CheckError("driver failed on %s:\n%s" % (what, out[-3000:]))
+
+
 def selftest(ctx, trace, mutations, n_lines=150):
     """Binding self-test: the recorded prefix is accepted, each corrupted copy of it is rejected."""
     rows = vlib.read_ndjson(trace)[:n_lines]
@@ -246,55 +277,75 @@ def selftest(ctx, trace, mutations, n_lines=150):
         ctx.log("binding self-test %s: rejected at line %s (%s)" % (m.__name__, info.get("line"), info.get("clause")))
 
 
-def run(ctx, quick):
+def _run(ctx, quick):
     rnd = random.Random(ctx.seed)
     drv = vlib.build_driver(ctx, "d_fastsync", clocks=CLOCKS)
 
-    # 1. bounded model: invariants in every state, scenario export
-    cfg = "MC_FastSync_quick.cfg" if quick else "MC_FastSync_thorough.cfg"
-    r = vlib.tlc(ctx, "MC_FastSync.tla", cfg, workers=12, timeout=3000, extra=["-seed", str(ctx.seed)])
-    if not r.ok:
-        raise vlib.CheckError("design-level FastSync model violates %s (model-only, not a verdict):\n%s" % (r.invariant, (r.error or "")[:1800]))
-    per_class = 1 if quick else 5
-    chosen, classes = pick(r.exports, rnd, per_class)
-    ctx.log("model: %d generated / %d distinct states; %d transitions exported in %d classes; %d chosen"
-            % (r.generated, r.distinct, len(r.exports), len(classes), len(chosen)))
+    # 1. bounded models: invariants in every state, scenario export;  2. the real code on the exported scenarios
+    models = [("MC_FastSync_quick.cfg", 1)] if quick else [("MC_FastSync_thorough.cfg", 4), ("MC_FastSync_thorough2.cfg", 2)]
     need = ["refuse/reload/", "refuse/forked/", "refuse/fail/", "post/snap-otherheight", "post/snap-unavailable", "switch", "restart/", "resume/",
             "deferred-across-batches", "honest-blamed"]
+    states = transitions = exported = 0
+    all_classes = {}
+    model_traces = []
+    for mi, (cfg, per_class) in enumerate(models):
+        r = vlib.tlc(ctx, "MC_FastSync.tla", cfg, workers=12, timeout=3000, extra=["-seed", str(ctx.seed)])
+        if not r.ok:
+            raise vlib.CheckError("design-level FastSync model (%s) violates %s (model-only, not a verdict):\n%s" % (cfg, r.invariant, (r.error or "")[:1800]))
+        chosen, classes = pick(r.exports, rnd, per_class)
+        states += r.distinct
+        transitions += r.generated
+        exported += len(r.exports)
+        all_classes.update(classes)
+        cases = ctx.path("cases_%d.json" % mi)
+        nsc = 0
+        with open(cases, "w") as f:
+            for i, e in enumerate(chosen):
+                for sc in to_scenarios(e, "%d.%d" % (mi, i), rnd):
+                    f.write(json.dumps(sc) + "\n")
+                    nsc += 1
+        ctx.log("model %s: %d generated / %d distinct states; %d transitions exported in %d classes; %d scenarios"
+                % (cfg, r.generated, r.distinct, len(r.exports), len(classes), nsc))
+        t_model = ctx.path("trace_model_%d.ndjson" % mi)
+        p = vlib.run_driver(ctx, drv, ["-cases", cases, "-out", t_model], timeout=3000)
+        if p.returncode != 0:
+            driver_failed(ctx, p, "the exported scenarios")
+        ctx.log("exported scenarios: " + (p.stdout or "").strip().splitlines()[-1])
+        model_traces.append(t_model)
+    classes = all_classes
     for n in need:
         if not any(n in k for k in classes):
-            raise vlib.CheckError("the model never exercised a '%s' transition (vacuous bounds)" % n)
-    cases = ctx.path("cases.json")
-    with open(cases, "w") as f:
-        nsc = 0
-        for i, e in enumerate(chosen):
-            for sc in to_scenarios(e, i, rnd):
-                f.write(json.dumps(sc) + "\n")
-                nsc += 1
+            raise vlib.CheckError("the models never exercised a '%s' transition (vacuous bounds)" % n)
+    if not quick and not any("/attn/" in k for k in classes):
+        raise vlib.CheckError("the double-fault model never reloaded from a second lying peer (vacuous bounds)")
 
-    # 2. the real code on the exported scenarios and on seeded random scenarios over a long chain
-    t_model = ctx.path("trace_model.ndjson")
-    p = vlib.run_driver(ctx, drv, ["-cases", cases, "-out", t_model], timeout=3000)
-    if p.returncode != 0:
-        raise vlib.CheckError("driver failed on the exported scenarios:\n" + (p.stdout or "")[-3000:])
-    ctx.log("exported scenarios: " + (p.stdout or "").strip().splitlines()[-1])
+    # seeded random scenarios over a long chain (step-wise applier and whole Downloader)
     t_rand = ctx.path("trace_random.ndjson")
     nrand, ndown, clen = (70, 25, 70) if quick else (800, 300, 110)
     p = vlib.run_driver(ctx, drv, ["-random", str(nrand), "-downloader", str(ndown), "-len", str(clen), "-out", t_rand], timeout=3000)
     if p.returncode != 0:
-        raise vlib.CheckError("driver failed on the random scenarios:\n" + (p.stdout or "")[-3000:])
+        driver_failed(ctx, p, "the random scenarios")
     ctx.log("random scenarios: " + " | ".join((p.stdout or "").strip().splitlines()[-2:]))
 
     # 3. the specification judges what happened
-    ok1, info1, rows1 = validate(ctx, t_model, "model-scenario")
+    ok1, drift1, rows1 = True, 0, []
+    for mi, t in enumerate(model_traces):
+        ok, info, rows = validate(ctx, t, "model-scenario-%d" % mi)
+        ok1 = ok1 and ok
+        drift1 += info.get("drift") or 0
+        rows1 += rows
+    info1 = {"drift": drift1}
     ok2, info2, rows2 = validate(ctx, t_rand, "random-scenario")
     s1, s2 = stats_of(rows1), stats_of(rows2)
-    for k, v in (("batches_refused", 20), ("reloads", 5), ("restarts", 5), ("resumed_appliers", 10), ("post_refused_snapshot", 2), ("switched", 20),
-                 ("deferred_across_batches", 5), ("downloader_fast_syncs", 10), ("downloader_refusals", 2)):
-        if s1[k] + s2[k] < v:
-            raise vlib.CheckError("dead driver: only %d '%s' in all traces" % (s1[k] + s2[k], k))
-    if len(s1["faults_on_wire"]) < 9:
-        raise vlib.CheckError("dead driver: only these alterations reached the wire: %s" % sorted(s1["faults_on_wire"]))
+    # vacuity: on a run without a verdict every kind of step must have been exercised (a violating run is a verdict already:
+    # the counts below depend on what the code did)
+    if ok1 and ok2 and not ctx.violations:
+        for k, v in (("batches_refused", 20), ("reloads", 5), ("restarts", 5), ("resumed_appliers", 10), ("post_refused_snapshot", 2), ("switched", 20),
+                     ("deferred_across_batches", 5), ("downloader_fast_syncs", 10), ("downloader_refusals", 2)):
+            if s1[k] + s2[k] < v:
+                raise vlib.CheckError("dead driver: only %d '%s' in all traces" % (s1[k] + s2[k], k))
+        if len(s1["faults_on_wire"]) < 9:
+            raise vlib.CheckError("dead driver: only these alterations reached the wire: %s" % sorted(s1["faults_on_wire"]))
 
     # 4. binding self-tests: a recorded trace with one observation altered must be rejected
     if ok1 and ok2:
@@ -318,12 +369,12 @@ def run(ctx, quick):
                     row["sync"]["canon"]["view"] = "1/1/1:0000000000000000"  # another validator view than the reference's
                     return rows_
             return None
-        selftest(ctx, t_model, (stored_diff_altered, head_moved_early, arrived_differs))
+        selftest(ctx, model_traces[0], (stored_diff_altered, head_moved_early, arrived_differs))
 
     sample = [x for x in rows1 if x.get("ev") == "Chain"]
     cov = {
-        "fastsync_model_states": r.distinct, "fastsync_model_transitions": r.generated, "fastsync_model_cfg": cfg,
-        "fastsync_exported_transitions": len(r.exports), "fastsync_classes": len(classes),
+        "fastsync_model_states": states, "fastsync_model_transitions": transitions, "fastsync_model_cfg": [m[0] for m in models],
+        "fastsync_exported_transitions": exported, "fastsync_classes": len(classes),
         "fastsync_scenarios_from_model": s1["scenarios"], "fastsync_scenarios_random": s2["scenarios"],
         "fastsync_trace_lines": len(rows1) + len(rows2),
         "fastsync_model_run": s1, "fastsync_random_run": s2,
@@ -335,6 +386,15 @@ def run(ctx, quick):
                                   "full sync of the rest) and nothing is mirrored",
     }
     return cov
+
+
+def run(ctx, quick):
+    """Entry for the property checks that include this module: returns a coverage dict, violations are reported through vlib."""
+    try:
+        return _run(ctx, quick)
+    except SyncCrashed:
+        return {"fastsync_crashed": "the sync code crashed the process; see the violation", "fastsync_model_states": 0, "fastsync_model_transitions": 0,
+                "fastsync_scenarios_from_model": 0, "fastsync_scenarios_random": 0, "fastsync_samples": []}
 
 
 def main(ctx):
